@@ -788,3 +788,76 @@ pub fn slice_find_map<T, B, P: Fn(&T) -> Option<B>>(s: &[T], p: P) -> (r: Option
     }
     None
 }
+
+// ============================================================================ public-key encryption (bc-components encapsulation)
+#[verifier::external_body]
+#[derive(Debug)]
+pub struct SealedMessage { _p: () }
+impl Clone for SealedMessage {
+    #[verifier::external_body]
+    fn clone(&self) -> (r: Self) ensures r == *self { unimplemented!() }
+}
+pub uninterp spec fn sealed_cbor(x: SealedMessage) -> CBOR;
+impl vstd::std_specs::convert::FromSpecImpl<SealedMessage> for CBOR {
+    open spec fn obeys_from_spec() -> bool { true }
+    open spec fn from_spec(x: SealedMessage) -> Self { sealed_cbor(x) }
+}
+impl From<SealedMessage> for CBOR {
+    #[verifier::external_body]
+    fn from(x: SealedMessage) -> Self { unimplemented!() }
+}
+
+// [A-sealed-codec]
+pub broadcast axiom fn axiom_sealed_cbor_inj(a: SealedMessage, b: SealedMessage)
+    requires #[trigger] sealed_cbor(a) == #[trigger] sealed_cbor(b)
+    ensures a == b;
+impl vstd::std_specs::convert::TryFromSpecImpl<CBOR> for SealedMessage {
+    open spec fn obeys_try_from_spec() -> bool { false }
+    uninterp spec fn try_from_spec(c: CBOR) -> Result<SealedMessage, Error>;
+}
+impl TryFrom<CBOR> for SealedMessage {
+    type Error = Error;
+    #[verifier::external_body]
+    fn try_from(c: CBOR) -> (r: Result<SealedMessage, Error>)
+        ensures r matches Ok(s) ==> sealed_cbor(s) == c, (exists|s: SealedMessage| sealed_cbor(s) == c) ==> r is Ok
+    { unimplemented!() }
+}
+// ideal KEM+AEAD: sealed_open(k, m) = what the holder of decryption key k obtains from m (None = cannot open)
+pub uninterp spec fn sealed_open(dkey: int, m: SealedMessage) -> Option<Seq<u8>>;
+pub trait Encrypter {
+    // identity of the key pair (the decryption key that matches this encryption key)
+    spec fn dkey(&self) -> int;
+}
+pub trait Decrypter {
+    spec fn dkey(&self) -> int;
+}
+impl SealedMessage {
+    // [A-sealed-new] a message sealed to a recipient opens to the plaintext under the matching private key
+    #[verifier::external_body]
+    pub fn new_opt(plaintext: Vec<u8>, recipient: &dyn Encrypter, aad: Option<Vec<u8>>, test_nonce: Option<&Nonce>) -> (r: SealedMessage)
+        ensures sealed_open(recipient.dkey(), r) == Some(plaintext@)
+    { unimplemented!() }
+    // [A-sealed-decrypt]
+    #[verifier::external_body]
+    pub fn decrypt(&self, private_key: &dyn Decrypter) -> (r: Result<Vec<u8>>)
+        ensures (r is Ok) == (sealed_open(private_key.dkey(), *self) is Some), r matches Ok(p) ==> Some(p@) == sealed_open(private_key.dkey(), *self)
+    { unimplemented!() }
+}
+impl SymmetricKey {
+    // the tagged CBOR bytes of the key
+    pub uninterp spec fn key_cbor_data(&self) -> Seq<u8>;
+    // [A-symkey-new]
+    #[verifier::external_body]
+    pub fn new() -> (r: SymmetricKey) { unimplemented!() }
+    // [A-symkey-codec] to_cbor_data / from_tagged_cbor_data are inverse
+    #[verifier::external_body]
+    pub fn to_cbor_data(&self) -> (r: Vec<u8>) ensures r@ == self.key_cbor_data() { unimplemented!() }
+    #[verifier::external_body]
+    pub fn from_tagged_cbor_data(data: Vec<u8>) -> (r: Result<SymmetricKey>)
+        ensures r matches Ok(k) ==> k.key_cbor_data() == data@, (exists|k: SymmetricKey| k.key_cbor_data() == data@) ==> r is Ok
+    { unimplemented!() }
+}
+// [A-symkey-codec] the CBOR bytes determine the key
+pub broadcast axiom fn axiom_symkey_data_inj(a: SymmetricKey, b: SymmetricKey)
+    requires #[trigger] a.key_cbor_data() == #[trigger] b.key_cbor_data()
+    ensures a == b;
